@@ -3,7 +3,7 @@
 # the whole Lean project (offline; Mathlib is pre-compiled on the toolchain path).
 set -e
 cd "$(dirname "$0")"
-cd tools && /venv/bin/python -m py2lean.main > ../.setup_gen.log 2>&1 || { tail -20 ../.setup_gen.log; exit 1; }
+cd tools && /venv/bin/python -m py2lean.main --prune > ../.setup_gen.log 2>&1 || { tail -20 ../.setup_gen.log; exit 1; }
 cd ../lean
 # a Props module that no longer proves must not stop setup: the checks report it
 lake build > ../.setup_build.log 2>&1 || true
